@@ -45,15 +45,15 @@ Print Assumptions C09_call_is_fresh_after_any_history.
 
 (* 2. tensor()/disp() immediately after data_ / reset_parameters / condition_ / grid_ reflect the new
       state.  Full statement: for every transform class with buffered state.  It is FALSE of the code
-      (see 3); what holds: every non-rigid model (displacement field, SVF, FFD, SVFFD; parameters held
-      as tensor, Parameter, callable or link), in every state, where for grid_ the operation actually
-      replaces something (`grid_replaces`: dense model with tensor parameters, or with other parameters
-      and a grid that does not compare equal; spline model whose control grid is subdivided). *)
+      for linear transforms with callable parameters (see 3); what holds: every non-rigid model
+      (displacement field, SVF, FFD, SVFFD; parameters held as tensor, Parameter, callable or link), in
+      every state; `grid_replaces` excludes only a dense model with non-tensor parameters asked for the
+      grid it already has (early return, nothing is replaced). *)
 Theorem C09_disp_after_replace_partial :
   forall (P G C : Type) p0 emptyP zeroP fillP regrid callP fits geq same_dom spline_ok ffd_sub
          (s : state P G C) (o : nat) (x : op P G C) (s1 : state P G C),
   (exists ob, get_obj P G C s o = Some ob /\ is_nonrigid (o_kind P G C ob) = true) ->
-  replacing geq ffd_sub s o x ->
+  replacing geq s o x ->
   step P G C p0 emptyP zeroP fillP regrid callP fits geq same_dom spline_ok ffd_sub gen_cfg s x = (s1, Done P G) ->
   forall l s2, forward P G C p0 callP fits spline_ok gen_cfg s1 o = Ok l s2 ->
   exists t, l = [t] /\ held P G C p0 callP s1 o = Some t.
@@ -63,43 +63,43 @@ Proof.
 Qed.
 Print Assumptions C09_disp_after_replace_partial.
 
-(* 3. ... and where the code does not: a linear transform with callable parameters after condition_
-      (or reset_parameters), a B-spline transform with callable parameters after grid_ *)
+(* 3. ... and where the code does not: a linear transform with callable parameters right after
+      condition_ or reset_parameters (tensor() reads the buffered p, clear_buffers leaves it) *)
 Theorem C09_disp_after_replace_refuted :
   stale_after gen_cfg h_lin_fun x_cond x_obs 0 = true /\
-  stale_after gen_cfg h_lin_fun (Reset PV nat CV 0) x_obs 0 = true /\
-  stale_after gen_cfg h_ffd_fun (GridSet PV nat CV 0 2) x_obs 0 = true.
-Proof. exact (conj linear_callable_stale_after_condition (conj linear_callable_stale_after_reset spline_callable_stale_after_grid)). Qed.
+  stale_after gen_cfg h_lin_fun (Reset PV nat CV 0) x_obs 0 = true.
+Proof. exact (conj linear_callable_stale_after_condition linear_callable_stale_after_reset). Qed.
 Print Assumptions C09_disp_after_replace_refuted.
 
 (* 4. Changing the grid of a dense model re-expresses the parameters on the new grid and installs it,
-      so any world-space reading under which `regrid` is meaning-preserving is preserved.  Full
-      statement: for every new grid.  FALSE of the code when the new grid differs from the current one
-      only in align_corners (Grid.__eq__ ignores the flag; see the refutation); what holds: *)
-Theorem C09_regrid_preserves_world_partial :
+      for EVERY new grid, so any world-space reading under which `regrid` is meaning-preserving is
+      preserved.  `geq` is the early-return test of SpatialTransform.grid_ (Grid.__eq__ and equal
+      align_corners), assumed to pass only for the grid the transform already has; `slots_wf`: params is
+      stored in at most one of the instance __dict__ and the _buffers dict. *)
+Theorem C09_regrid_preserves_world :
   forall (P G C : Type) (p0 : P) regrid fits geq spline_ok ffd_sub (W : Type) (world : P -> G -> W)
          (s : state P G C) o g s1 ob r ip,
+  (forall a b, geq a b = true -> a = b) ->
   (forall k p a b, world (regrid k p a b) b = world p a) ->
   get_obj P G C s o = Some ob -> is_dense (o_kind P G C ob) = true -> slots_wf ob ->
   get_params P G C s ob = Some (VTen r ip) ->
-  geq (o_grid P G C ob) g = false ->
   grid_set P G C p0 regrid fits geq spline_ok ffd_sub gen_cfg s o g = Ok tt s1 ->
-  exists p' g', holds p0 s1 o p' g' /\ world p' g' = world (tval P G C p0 s r) (o_grid P G C ob).
+  exists p', holds p0 s1 o p' g /\ world p' g = world (tval P G C p0 s r) (o_grid P G C ob).
 Proof.
-  exact (fun P G C p0 regrid fits geq spline_ok ffd_sub =>
-           dense_grid_set_preserves_world p0 regrid fits geq spline_ok ffd_sub gen_cfg gen_cfg_all).
+  exact (fun P G C p0 regrid fits geq spline_ok ffd_sub W world s o g s1 ob r ip Hq =>
+           dense_grid_set_preserves_world p0 regrid fits geq spline_ok ffd_sub gen_cfg gen_cfg_all Hq W world s o g s1 ob r ip).
 Qed.
-Print Assumptions C09_regrid_preserves_world_partial.
-
-Theorem C09_regrid_preserves_world_refuted :
-  x_geq 0 1 = true /\ world_changed gen_cfg h_disp_ten 0 1 = true.
-Proof. exact dense_grid_align_only_changes_world. Qed.
-Print Assumptions C09_regrid_preserves_world_refuted.
+Print Assumptions C09_regrid_preserves_world.
 
 (* non-vacuity: the hypotheses of 1, 2 and 4 are met by concrete reachable states of the executable
-   instance, and the conclusions are observed there *)
+   instance, and the conclusions are observed there (including the two repaired cases: a B-spline model
+   with callable parameters after grid_, a dense model moved to a grid differing only in align_corners) *)
 Example C09_nonvacuous :
   fresh_after gen_cfg h_svf_fun x_cond x_obs 0 = true /\
   fresh_after gen_cfg h_disp_ten x_data (Disp PV nat CV 0) 0 = true /\
-  (x_geq 0 2 = false /\ world_kept gen_cfg h_disp_ten 0 2 = true).
-Proof. exact (conj nonrigid_callable_fresh_after_condition (conj dense_fresh_after_data dense_grid_other_lattice_keeps_world)). Qed.
+  fresh_after gen_cfg h_ffd_fun (GridSet PV nat CV 0 2) x_obs 0 = true /\
+  world_kept gen_cfg h_disp_ten 0 2 = true /\ world_kept gen_cfg h_disp_ten 0 1 = true.
+Proof.
+  exact (conj nonrigid_callable_fresh_after_condition (conj dense_fresh_after_data (conj spline_callable_fresh_after_grid
+          (conj dense_grid_other_lattice_keeps_world dense_grid_align_only_keeps_world)))).
+Qed.
